@@ -118,6 +118,10 @@ let () =
      done
    with End_of_file -> close_in ic);
   let cf = { cf_use_fast = !fast; cf_debug = !debug } in
+  let acc_on = (try Sys.getenv "MODEL_ACC_CHECK" = "1" with Not_found -> false) in
+  let acc_failed = ref false and acc_msg = ref "" and acc_step = ref 0 in
+  let acc_addrs = ref (List.filter (fun a -> string_of_n a <> "0") !inits) in
+  let acc_conts = List.init 12 n_of_int and acc_thrs = List.init 12 n_of_int and acc_hnds = List.init 200 n_of_int in
   let st = ref (init_state !inits (List.rev !threads)) in
   let sc = if sched_file = "-" then stdin else open_in sched_file in
   (try
@@ -129,6 +133,17 @@ let () =
              let tn = n_of_string t and xn = n_of_string x in
              let (s', evs) = step cf !st tn xn in
              st := s';
+             if acc_on then List.iter (fun e -> match e with EvAlloc (a, _) -> if not (List.mem a !acc_addrs) then acc_addrs := a :: !acc_addrs | _ -> ()) evs;
+             if acc_on && not !acc_failed then begin
+               let faulted = List.exists (fun t -> match (s'.thr t).t_status with Faulted | Panicked -> true | _ -> false) acc_thrs in
+               if not faulted then
+                 let nn = int_of_n (s'.sh.mem LHead) in
+                 let nodes = List.init (nn + 1) n_of_int in
+                 match acc_check_all s' !acc_addrs nodes acc_conts acc_thrs acc_hnds with
+                 | Some a -> acc_failed := true; acc_msg := Printf.sprintf ". ACC-VIOLATION addr %s after step %d" (string_of_n a) !acc_step
+                 | None -> ()
+             end;
+             incr acc_step;
              (match evs with
               | [] -> Printf.printf "%s NOP\n" t
               | e :: rest ->
@@ -138,6 +153,7 @@ let () =
        end
      done
    with End_of_file -> ());
+  if !acc_failed then print_endline !acc_msg;
   (* final state, in the harness's format *)
   let s = !st in
   let all_cmds = List.concat (List.rev !threads) in
